@@ -332,6 +332,17 @@ func victims() []victimSpec {
 			return opUpdate("a", g.val3(0, 1), o)
 		}},
 		{"update-check", gau, func(g *rig, cur *tat) sm.Op { return opUpdate("a", g.val3(0, 0), sm.Opts{ExpectCheck: true}) }},
+		{"update-cas-check", gau, func(g *rig, cur *tat) sm.Op {
+			// expected value AND expected check on one write: both must have held at the instant of the write
+			o := sm.Opts{ExpectCheck: true}
+			if cur != nil {
+				o.ExpectValue = proto.Clone(cur)
+			} else {
+				o.ExpectValue = &tat{}
+				o.CreateIfAbsent = true
+			}
+			return opUpdate("a", g.val3(0, 1), o)
+		}},
 		{"update-delta", gau, func(g *rig, cur *tat) sm.Op {
 			return opUpdate("a", &tat{DefaultInt64: 5}, sm.Opts{Before: true, HasUpdateMask: true, UpdateMask: []string{"default_int64"}})
 		}},
@@ -348,6 +359,13 @@ func victims() []victimSpec {
 		}},
 		{"delete-expect", del, func(g *rig, cur *tat) sm.Op {
 			o := sm.Opts{}
+			if cur != nil {
+				o.ExpectValue = proto.Clone(cur)
+			}
+			return sm.Op{Kind: sm.Delete, ID: "a", Opts: o}
+		}},
+		{"delete-expect-check", del, func(g *rig, cur *tat) sm.Op {
+			o := sm.Opts{ExpectCheck: true}
 			if cur != nil {
 				o.ExpectValue = proto.Clone(cur)
 			}
@@ -843,6 +861,7 @@ func stress(r *vk.Run) {
 						if ls := lastSeen[""]; ls != nil {
 							o.ExpectValue = proto.Clone(ls)
 						}
+						o.ExpectCheck = prng.Intn(3) == 0 // both preconditions on one write: each must hold
 						op = sm.Op{Kind: sm.Set, Val: g.val3(p, int32(prng.Intn(2))), Opts: o}
 					case isValue && c < 10:
 						op = sm.Op{Kind: sm.Set, Val: &tat{DefaultInt64: int64(prng.Range(1, 9))}, Opts: sm.Opts{Before: true, HasUpdateMask: true, UpdateMask: []string{"default_int64"}}}
@@ -863,6 +882,7 @@ func stress(r *vk.Run) {
 						} else {
 							o.ExpectValue, o.CreateIfAbsent = &tat{}, true
 						}
+						o.ExpectCheck = prng.Intn(3) == 0
 						op = opUpdate(id, g.val3(p, int32(prng.Intn(2))), o)
 					case c == 5:
 						op = opUpdate(id, g.val3(p, 0), sm.Opts{ExpectCheck: true})
@@ -875,6 +895,7 @@ func stress(r *vk.Run) {
 						if ls := lastSeen[id]; ls != nil {
 							o.ExpectValue = proto.Clone(ls)
 						}
+						o.ExpectCheck = prng.Intn(3) == 0
 						op = sm.Op{Kind: sm.Delete, ID: id, Opts: o}
 					case c == 10:
 						op = sm.Op{Kind: sm.Add, ID: "", Val: g.val3(p, 1), Opts: sm.Opts{GenID: true, IDCallback: true}}
